@@ -27,7 +27,9 @@ soundness needs no proviso (`C03_delivery_sound_reach_partial`).
   publish (`AcceptedQ0` / `AcceptedInline`, decidable hypotheses on the state before the op) the whole op IS that one
   call (`step_recv_publish_accepted`, `step_inlinePublish_accepted`), so it writes a PUBLISH to exactly the entitled
   connections, entitlement read in the state before the op (`recv_publish_delivery_exact`,
-  `inline_publish_delivery_exact`, `C03_publish_op_exact_reach_partial`, `C03_publish_op_exact_seq_partial`).
+  `inline_publish_delivery_exact`, `C03_publish_op_exact_reach_partial`, `C03_publish_op_exact_seq_partial`); without
+  the hypothesis that the publisher holds no deferred message the op writes, after these deliveries, at most two
+  releases of the publisher's own deferred messages to the publisher (`recv_publish_delivery_exact_releases`).
 Excluded (partial): shared subscriptions matching the topic, deliveries of QoS > 0 (in-flight limit, packet ids, send
 quota), the topic bytes under topic aliases, schedule ops (concurrent handlers); for the op theorems also: an
 inbound topic alias, a publish-hook mode for the topic, an in-flight record under the packet id, a publisher that
